@@ -18,7 +18,7 @@ RULE = ("fault catalogue of hostile-but-well-formed client messages (unknown dev
         "streams, real TTY ConnectionHandler on fake stdin/stdout, direct Router call from a registered client}. Monitors: "
         "exceptions escaping Router.process_message, Router.clients membership / writer.closed / handler task liveness, "
         "per-element snapshots of every device, the answer to a trailing getProperties, delivery of later device traffic to this "
-        "and to a second connection. non-trivial = every (fault, target, position, transport); distinct = hash of that tuple")
+        "and to a second connection, which must never be sent a device-bound message (new*, enableBLOB) of the hostile client. The catalogue includes well-formed messages with one extra attribute named after a word the implementation uses itself (attrib, to_string, to_xml, children, from_device, tag, __class__ ...). non-trivial = every (fault, target, position, transport); distinct = hash of that tuple")
 ASSUMPTIONS = ["a kind-mismatched but applicable write may be applied (only validly named elements may change)",
                "state partially applied before a failing child of a multi-child message is allowed",
                "spoofed def/set/del from a client may be relayed to other clients"]
